@@ -161,9 +161,13 @@ func (b *Bytes) store(addr model.Addr, bs []byte) int {
 		b.blocks[i] = b.blocks[i-1]
 	}
 
+	// The bytes are copied as the block is modified by later stores while bs
+	// belongs to the constant stored.
+	bytes := make([]byte, end-addr)
+	copy(bytes, bs)
 	b.blocks[idx] = byteBlock{
 		begin: addr,
-		bytes: bs[:end-addr],
+		bytes: bytes,
 	}
 
 	return int(end - addr)
